@@ -3,11 +3,12 @@ import ast
 
 from ..astutil import norm, dotted, compare, const, NO, tail
 from ..index import AnalysisError, walk_own
+from ..cfg import Node as _CfgNode
 
 
 def site(func, node=None, text=None):
     if text is None and node is not None:
-        text = node.text if hasattr(node, "kind") else norm(node)
+        text = node.text if isinstance(node, _CfgNode) else norm(node)
     if text is None:
         return func.where
     if len(text) > 110:
@@ -17,7 +18,7 @@ def site(func, node=None, text=None):
 
 def key(func, node_or_text):
     t = node_or_text if isinstance(node_or_text, str) else (
-        node_or_text.text if hasattr(node_or_text, "kind") else norm(node_or_text))
+        node_or_text.text if isinstance(node_or_text, _CfgNode) else norm(node_or_text))
     return "%s|%s" % (func.short, t)
 
 
@@ -282,7 +283,7 @@ def fresh_edges(func, edges, target, kills):
     return out
 
 
-def guard_check(func, targets, recog, kills=(), follow_exc=False, extra_cut=()):
+def guard_check(func, targets, recog, kills=(), follow_exc=False, extra_cut=(), without_nodes=()):
     """-> (witness path or None, hits).
 
     None = on every path entry -> target, the last event among {re-assignment of the guarded
@@ -295,7 +296,7 @@ def guard_check(func, targets, recog, kills=(), follow_exc=False, extra_cut=()):
     for t in targets:
         for s in [g.entry] + [k for k in kills if k is not t]:
             if s is g.entry:
-                p = g.path(s, [t], without_edges=cut, follow_exc=follow_exc)
+                p = g.path(s, [t], without_edges=cut, follow_exc=follow_exc, without_nodes=without_nodes)
             else:
                 p = None
                 for b, l in s.out:
@@ -304,7 +305,9 @@ def guard_check(func, targets, recog, kills=(), follow_exc=False, extra_cut=()):
                     if b is t:
                         p = [s, t]
                         break
-                    p = g.path(b, [t], without_edges=cut, follow_exc=follow_exc)
+                    if b in without_nodes:
+                        continue
+                    p = g.path(b, [t], without_edges=cut, follow_exc=follow_exc, without_nodes=without_nodes)
                     if p is not None:
                         p = [s] + p
                         break
